@@ -62,6 +62,13 @@ func generate(w *mon.W) {
 			}
 		}
 	}
+	// calls of dialect functions with arithmetic, dates and durations as arguments
+	for _, s := range []string{"T | where ts > datetime(2024 - skew * 60) and d == date(1999 - a)", "T | where ts > datetime(2024-01-15) | extend t = ago(5 - m), u = bin(ts, 3600) | count",
+		"T\n| extend datetime(1-2-3), x = datetime( 2024-01-15 )\n| where not -1 > 0 and a --1 > 0", "T | summarize count() by (a), (b) | where x not in (1)"} {
+		ms := mon.Str(s)
+		c := &Case{Raw: &ms}
+		w.Do("dial|"+s, func(r *mon.R) { Check(c, r) })
+	}
 	// one token text several times in one source (each occurrence has its own place)
 	for _, s := range gen.RepeatedTokenSources() {
 		ms := mon.Str(s)
